@@ -130,6 +130,29 @@ func ruleScope(c *Ctx) *RuleResult {
 				}
 			}
 		}
+		// ... and only those: the scope that declares the label is not left by the jump, so
+		// its captured registers keep their cells. The clear is reached only after the
+		// lookup of the label in that scope has failed.
+		if inLoop {
+			gc := newGuardCtx(ej)
+			for _, cl := range calls {
+				onlyAfterMiss := false
+				for _, ge := range gc.MustEdges(cl.Block()) {
+					ex, ok := ge.If.Cond.(*ssa.Extract)
+					if !ok || ge.Taken {
+						continue
+					}
+					if gl, ok := ex.Tuple.(*ssa.Call); ok && calleeNamed(gl, "getLabel") {
+						onlyAfterMiss = true
+					}
+				}
+				if onlyAfterMiss {
+					r.ok("(2) EmitJump clears a scope only after the label was not found in it")
+				} else {
+					r.fail("scope-hop2-emitjump-clears-label-scope", p.InstrPos(cl), "EmitJump calls emitClearReg for a scope before it knows that the label is not declared there: a goto to a label in the same scope as a captured local gives that local a fresh cell, detaching it from the closures that captured it (they see nil, or the function loses its value)")
+				}
+			}
+		}
 		if inLoop {
 			r.ok("(2) EmitJump clears the captured registers of every scope it leaves")
 		} else {
@@ -612,6 +635,26 @@ func ruleClose(c *Ctx) *RuleResult {
 		r.fail("close-handler-error-leaves-loop", p.Pos(ccs.Pos()), "cleanupCloseStack returns as soon as a __close handler fails: the remaining pending handlers would not run")
 	} else {
 		r.ok("a failing __close handler does not stop the remaining handlers")
+	}
+	// a value is off the close stack before its handler runs: the handler may yield, and a
+	// coroutine closed at that point cleans up whatever is still on the stack — a value
+	// still there would be closed twice
+	{
+		fromPop := false
+		if len(metacall.Common().Args) > 1 {
+			for v := range backSliceAllocs(metacall.Common().Args[1], false) {
+				if ex, ok := v.(*ssa.Extract); ok {
+					if pc, ok := ex.Tuple.(*ssa.Call); ok && calleeNamed(pc, "pop") {
+						fromPop = true
+					}
+				}
+			}
+		}
+		if fromPop {
+			r.ok("cleanupCloseStack pops a value before calling its __close handler")
+		} else {
+			r.fail("close-handler-runs-before-pop", p.InstrPos(metacall), "cleanupCloseStack calls a __close handler on a value it has not popped from the close stack: if the handler yields and the coroutine is then closed, or the handler raises with pending values of its own, the value is closed a second time or the handler's own pending values are discarded")
+		}
 	}
 	// predicate agreement: the Metacall is guarded by Truth(v) == true
 	gc := newGuardCtx(ccs)
